@@ -5,6 +5,15 @@ package rel
 // trusted frozen-model enumeration (for GenericSet/UnionSet). All comparisons use the
 // non-forking verifAnd/verifOr so that one path of the code under test yields one query.
 
+// verifWiden returns quick in the quick tier and thorough in the thorough tier (the choice is
+// recorded in the replay vector, so the native run uses the same bound).
+func verifWiden(quick, thorough int) int {
+	if verifThorough() {
+		return thorough
+	}
+	return quick
+}
+
 type verifPair struct {
 	at, v int
 	ok    bool
